@@ -20,6 +20,10 @@ type Env struct {
 	depth int
 	loopEntry *Env // state at the moment the loop was entered, for atEntry(...)
 	side  *[]string // side facts produced while translating (e.g. axioms of s_sub terms)
+	seen  func(k string) string // membership in the delivered-key set of the (single) live map iterator
+	fresh func(term string) string // "term is an object allocated by this activation" (ensures side)
+	trace []traceEv // ghost call trace of the current path (ncalls / callArg / atCall)
+	tsnap func(ev traceEv) *Env
 }
 
 func (e *Env) with(name string, v Val) *Env {
@@ -130,6 +134,11 @@ func (e *Env) expr(x ast.Expr) Val {
 	case *ast.BinaryExpr:
 		a := e.expr(x.X)
 		b := e.expr(x.Y)
+		if id, ok := x.Y.(*ast.Ident); ok && id.Name == "nil" && a.T != nil {
+			b = Val{S: cx.zeroOf(a.T), T: a.T}
+		} else if id, ok := x.X.(*ast.Ident); ok && id.Name == "nil" && b.T != nil {
+			a = Val{S: cx.zeroOf(b.T), T: b.T}
+		}
 		t := defaultType(e.typeOf(x.X))
 		if bt, ok := t.(*types.Basic); ok && bt.Kind() == types.UntypedNil {
 			t = defaultType(e.typeOf(x.Y))
@@ -452,6 +461,18 @@ func (e *Env) call(x *ast.CallExpr) Val {
 		// built(b) : the text written so far to a strings.Builder, as an Out history (only usable as fold argument)
 		v := e.expr(x.Args[0])
 		return Val{S: v.S, T: v.T}
+	case "seen":
+		if e.seen == nil {
+			e.fail(x, "seen() is only available in invariants of a loop ranging over a map")
+		}
+		k := e.expr(x.Args[0])
+		return Val{S: e.seen(k.S), T: types.Typ[types.Bool]}
+	case "fresh":
+		v := e.expr(x.Args[0])
+		if e.fresh == nil {
+			e.fail(x, "fresh() is only available in postconditions")
+		}
+		return Val{S: e.fresh(v.S), T: types.Typ[types.Bool]}
 	case "has":
 		m := e.expr(x.Args[0])
 		k := e.expr(x.Args[1])
@@ -461,6 +482,74 @@ func (e *Env) call(x *ast.CallExpr) Val {
 		}
 		_, kh := cx.mapKeys(mt)
 		return Val{S: fmt.Sprintf("(select (select %s %s) %s)", e.heap(kh), m.S, k.S), T: types.Typ[types.Bool]}
+	case "ncalls":
+		name := e.strArg(x, 0)
+		n := 0
+		for _, ev := range e.trace {
+			if ev.name == name {
+				n++
+			}
+		}
+		return Val{S: cx.num(int64(n)), T: types.Typ[types.Int]}
+	case "callArg":
+		// callArg[T](name, k, i): i-th argument (receiver first) of the k-th call of name on this path
+		name := e.strArg(x, 0)
+		k, i := e.intArg(x, 1), e.intArg(x, 2)
+		ev := e.traceAt(x, name, k)
+		if ev == nil || i >= len(ev.args) {
+			// no such call on this path: the clause must guard it with ncalls; yield an unconstrained value of the type
+			t := e.typeOf(x)
+			n := cx.fresh("nocall")
+			cx.declUF(n, fmt.Sprintf("(declare-const %s %s)", n, cx.sortOf(t)))
+			return Val{S: n, T: t}
+		}
+		return ev.args[i]
+	case "callResult":
+		name := e.strArg(x, 0)
+		k := e.intArg(x, 1)
+		ev := e.traceAt(x, name, k)
+		if ev == nil || ev.res.S == "" {
+			t := e.typeOf(x)
+			n := cx.fresh("nocall")
+			cx.declUF(n, fmt.Sprintf("(declare-const %s %s)", n, cx.sortOf(t)))
+			return Val{S: n, T: t}
+		}
+		return ev.res
+	case "atCall":
+		// atCall(name, k, expr): expr evaluated in the state in which the k-th call of name was made
+		name := e.strArg(x, 0)
+		k := e.intArg(x, 1)
+		ev := e.traceAt(x, name, k)
+		if ev == nil {
+			return Val{S: "true", T: types.Typ[types.Bool]}
+		}
+		if e.tsnap == nil {
+			e.fail(x, "atCall() not available here")
+		}
+		se := e.tsnap(*ev)
+		se.old = e.old
+		return se.exprWithInfo2(x.Args[2], e)
+	case "callOrder":
+		// callOrder(a, i, b, j): the i-th call of a precedes the j-th call of b on this path (true if either is absent)
+		a, b := e.strArg(x, 0), e.strArg(x, 2)
+		i, j := e.intArg(x, 1), e.intArg(x, 3)
+		pa, pb := e.tracePos(a, i), e.tracePos(b, j)
+		if pa < 0 || pb < 0 || pa < pb {
+			return Val{S: "true", T: types.Typ[types.Bool]}
+		}
+		return Val{S: "false", T: types.Typ[types.Bool]}
+	case "eq":
+		a, b := e.expr(x.Args[0]), e.expr(x.Args[1])
+		return Val{S: fmt.Sprintf("(= %s %s)", a.S, b.S), T: types.Typ[types.Bool]}
+	case "isNil":
+		v := e.expr(x.Args[0])
+		switch v.T.Underlying().(type) {
+		case *types.Interface:
+			return Val{S: fmt.Sprintf("(or (= (if_tag %s) %s) (= (if_val %s) %s))", v.S, cx.num(0), v.S, cx.num(0)), T: types.Typ[types.Bool]}
+		case *types.Pointer, *types.Map:
+			return Val{S: fmt.Sprintf("(= %s %s)", v.S, cx.num(0)), T: types.Typ[types.Bool]}
+		}
+		e.fail(x, "isNil of "+v.T.String())
 	case "isNilIface":
 		v := e.expr(x.Args[0])
 		return Val{S: fmt.Sprintf("(= (if_tag %s) %s)", v.S, cx.num(0)), T: types.Typ[types.Bool]}
@@ -490,6 +579,62 @@ func (e *Env) call(x *ast.CallExpr) Val {
 		args = append(args, e.expr(a))
 	}
 	return e.applySpec(x, sf, args)
+}
+
+func (e *Env) strArg(x *ast.CallExpr, i int) string {
+	if tv, ok := e.info.Types[x.Args[i]]; ok && tv.Value != nil && tv.Value.Kind() == constant.String {
+		return constant.StringVal(tv.Value)
+	}
+	e.fail(x, "constant string argument expected")
+	return ""
+}
+
+func (e *Env) intArg(x *ast.CallExpr, i int) int {
+	if tv, ok := e.info.Types[x.Args[i]]; ok && tv.Value != nil && tv.Value.Kind() == constant.Int {
+		n, _ := constant.Int64Val(tv.Value)
+		return int(n)
+	}
+	e.fail(x, "constant integer argument expected")
+	return 0
+}
+
+func (e *Env) tracePos(name string, k int) int {
+	n := 0
+	for i, ev := range e.trace {
+		if ev.name == name {
+			if n == k {
+				return i
+			}
+			n++
+		}
+	}
+	return -1
+}
+
+func (e *Env) traceAt(x ast.Node, name string, k int) *traceEv {
+	if i := e.tracePos(name, k); i >= 0 {
+		return &e.trace[i]
+	}
+	return nil
+}
+
+// exprWithInfo2: like exprWithInfo but keeps e's own old environment (used by atCall, where old() still means the
+// unit's entry state).
+func (e *Env) exprWithInfo2(x ast.Expr, from *Env) Val {
+	n := *e
+	n.info = from.info
+	n.pkg = from.pkg
+	n.side = from.side
+	n.trace = from.trace
+	n.tsnap = from.tsnap
+	n.vars = map[string]Val{}
+	for k, v := range from.vars {
+		n.vars[k] = v
+	}
+	for k, v := range e.vars {
+		n.vars[k] = v
+	}
+	return n.expr(x)
 }
 
 // exprWithInfo evaluates x in environment e (the old-state env) but with the type info / bound variables of the calling env.
